@@ -461,6 +461,7 @@ var ghostHeaps = map[string]string{
 	"opened":  "Int", // number of Open attempts on a transport
 	"clen":    "Int",
 	"ccap":    "Int",
+	"consumed": "Int", // bytes taken from an io.Reader
 }
 
 func (e *Engine) evalCall(s *State, c *SpecCtx, n *ast.CallExpr) *SV {
@@ -557,6 +558,12 @@ func (e *Engine) evalCall(s *State, c *SpecCtx, n *ast.CallExpr) *SV {
 		lit := n.Args[1].(*ast.BasicLit)
 		name, _ := strconv.Unquote(lit.Value)
 		return svBool(eq(app("ityp", arg(0).V.L[0]), e.typeTagByName(name)))
+	case "implements":
+		lit := n.Args[1].(*ast.BasicLit)
+		name, _ := strconv.Unquote(lit.Value)
+		k := "impl!" + name
+		e.globalDecl("(declare-fun " + k + " (Int) Bool)")
+		return svBool(app(k, app("ityp", arg(0).V.L[0])))
 	case "held":
 		// held(obj, "mu")
 		lit := n.Args[1].(*ast.BasicLit)
@@ -565,6 +572,20 @@ func (e *Engine) evalCall(s *State, c *SpecCtx, n *ast.CallExpr) *SV {
 		key := "F!" + structKey(deref(o.T)) + "!." + name + "@" + o.V.L[0]
 		_, ok := s.Held[key]
 		return svBool(fmt.Sprint(ok))
+	}
+	if pd, ok := e.C.Preds[fname]; ok {
+		if len(pd.Params) != len(n.Args) {
+			e.unsupportedf("pred %s arity", fname)
+		}
+		c2 := *c
+		c2.Bound = map[string]*SV{}
+		for k, v := range c.Bound {
+			c2.Bound[k] = v
+		}
+		for i, pn := range pd.Params {
+			c2.Bound[pn] = arg(i)
+		}
+		return e.eval(s, &c2, pd.Body.Expr)
 	}
 	if sortS, ok := ghostHeaps[fname]; ok {
 		h := e.specHeap(s, c, "GH!"+fname, "(Array Int "+sortS+")")
@@ -597,6 +618,7 @@ func (e *Engine) evalCall(s *State, c *SpecCtx, n *ast.CallExpr) *SV {
 }
 
 func (e *Engine) typeTagByName(name string) string {
+	name = strings.NewReplacer(" ", "_", "*", "P", "[", "L", "]", "R").Replace(name)
 	for k, id := range e.typeTags {
 		if k == name {
 			return num(int64(id))
